@@ -64,7 +64,8 @@ func checkC05(c *Ctx, r *Report) {
 	// not send every coalesced client to the origin: the 304 path may not leave the flight as "not cacheable" when
 	// the entry is merely gone — the flight has to produce one answer for everybody.
 	for _, f := range c.FuncsNamed(fetcherT + "handleUpstream304") {
-		upd := findCall(f, "("+cachePkg+".Cache).UpdateMetadata")
+		// the renewal, or the call of a helper that does nothing but make it and hand its error back (f.extendExpiry(key))
+		upd, _ := cacheCallOrWrapper(f, "("+cachePkg+".Cache).UpdateMetadata")
 		if upd == nil {
 			r.Undecided("C05.R7", "handleUpstream304: UpdateMetadata", c.Pos(f.Pos()), "unresolved anchor")
 			continue
@@ -196,10 +197,30 @@ func checkC05(c *Ctx, r *Report) {
 	cl := mc.Fn.(*ssa.Function)
 	// R1
 	callers := callerKeys(li, g)
-	r.Check(len(callers) == 1 && callers[0] == fnKey(cl), "C05.R1", "getFromCacheOrFetch is only called from the singleflight closure", c.Pos(g.Pos()), "single caller "+fnKey(cl), "getFromCacheOrFetch is called outside the coalescing closure: "+strings.Join(callers, ", "))
+	r.Check(onlyReachedFrom(li, g, cl, 0), "C05.R1", "getFromCacheOrFetch is only called from the singleflight closure", c.Pos(g.Pos()), "reached only from "+fnKey(cl)+" (directly or through a helper only it calls)", "getFromCacheOrFetch is called outside the coalescing closure: "+strings.Join(callers, ", "))
 	inner := findCall(cl, fetcherT+"getFromCacheOrFetch")
+	var innerCtx dctx
+	if inner == nil {
+		// the closure may hand the work to a helper (return f.sharedFetch(req, key, clientHd))
+		for _, hc := range helperContexts(cl, 2) {
+			if x := findCall(hc.fn, fetcherT+"getFromCacheOrFetch"); x != nil && inner == nil {
+				inner, innerCtx = x, hc.ctx
+			}
+		}
+	}
 	if inner != nil {
 		keyArg := inner.Call.Args[2]
+		for hop := 0; hop < 3 && len(innerCtx) > 0; hop++ {
+			prm, isP := resolveVal(keyArg).(*ssa.Parameter)
+			if !isP {
+				break
+			}
+			a, c2, okA := paramArg(prm, innerCtx)
+			if !okA {
+				break
+			}
+			keyArg, innerCtx = a, c2
+		}
 		root, p := fieldPath(do.Call.Args[1])
 		var bound ssa.Value
 		if fv, ok := resolveFree(keyArg).(*ssa.FreeVar); ok {
@@ -671,6 +692,44 @@ func checkC06(c *Ctx, r *Report) {
 				}
 				return false
 			})
+			// the validator itself may be a parameter of a helper that builds the conditional request
+			// (conditionalRequest(req, etag, lastModified)): every caller passes the stored field of the entry it looked up
+			if !okSrc {
+				derivesFrom(args[2], func(v ssa.Value) bool {
+					prm, isP := v.(*ssa.Parameter)
+					if !isP || prm.Parent() != f {
+						return false
+					}
+					idx := -1
+					for i, q := range f.Params {
+						if q == prm {
+							idx = i
+						}
+					}
+					cs := li.Callers[f]
+					all := len(cs) > 0 && idx >= 0
+					for _, site := range cs {
+						cc, okc := asCall(site.in)
+						if !okc || idx >= len(callArgs(cc)) {
+							all = false
+							break
+						}
+						root, pth := fieldPath(callArgs(cc)[idx])
+						e, okE := resolveVal(root).(*ssa.Extract)
+						if len(pth) < 3 || strings.Join(pth[len(pth)-3:], ".") != "Metadata.Object."+want || !okE {
+							all = false
+							break
+						}
+						if gc, okG := e.Tuple.(*ssa.Call); !okG || calleeName(gc) != "("+cachePkg+".Cache).Get" {
+							all = false
+						}
+					}
+					if all {
+						okSrc = true
+					}
+					return false
+				})
+			}
 			// and nothing client-supplied
 			fromClient := derivesFrom(args[2], func(v ssa.Value) bool {
 				if x, ok := v.(*ssa.Call); ok && calleeName(x) == "(net/http.Header).Get" {
@@ -941,13 +1000,21 @@ func checkC06(c *Ctx, r *Report) {
 
 	// ---- R3
 	for _, f := range c.FuncsNamed(fetcherT + "handleUpstream304") {
-		upd := findCall(f, "("+cachePkg+".Cache).UpdateMetadata")
+		updSite, updReal := cacheCallOrWrapper(f, "("+cachePkg+".Cache).UpdateMetadata")
 		get := findCall(f, "("+cachePkg+".Cache).Get")
-		if upd == nil || get == nil {
+		if updSite == nil || get == nil {
 			r.Fail("C06.R3", "304 renews the lifetime and re-reads the entry", c.Pos(f.Pos()), "handleUpstream304 does not call UpdateMetadata and Get")
 			continue
 		}
-		sameKey := sameVal(callArgs(upd)[1], callArgs(get)[1]) && resolveVal(callArgs(upd)[1]) == ssa.Value(paramNamed(f, "key"))
+		// the key the renewal is made under, seen from f (through the wrapper's parameter if there is one)
+		updKey := resolveVal(callArgs(updReal)[1])
+		if prm, isP := updKey.(*ssa.Parameter); isP && updReal != updSite {
+			if a, _, okA := paramArg(prm, dctx{updSite}); okA {
+				updKey = resolveVal(a)
+			}
+		}
+		upd := updSite
+		sameKey := updKey == resolveVal(callArgs(get)[1]) && updKey == ssa.Value(paramNamed(f, "key"))
 		r.Check(sameKey && instrDominates(upd, get), "C06.R3", "304: UpdateMetadata(key) then Get(key)", c.InstrPos(upd), "same key parameter, in this order", "the 304 path does not re-read the entry under the key it just renewed")
 		// ... and what it hands back is that re-read entry: an entry object looked up before the renewal may have been
 		// replaced in the store meanwhile (a Range request's 200), its body is then not the one the 304 confirmed
@@ -980,7 +1047,7 @@ func checkC06(c *Ctx, r *Report) {
 		}
 		r.Check(bad == "", "C06.R3", "304 path reaches no store or delete", c.Pos(f.Pos()), "only UpdateMetadata / Get", "the 304 path can reach "+bad+": a not-modified answer replaces or drops the stored body")
 		// modifier closure writes only Expires = now + default
-		if mc, ok := callArgs(upd)[2].(*ssa.MakeClosure); ok {
+		if mc, ok := callArgs(updReal)[2].(*ssa.MakeClosure); ok {
 			cl := mc.Fn.(*ssa.Function)
 			var written []string
 			okVal := false
@@ -1069,7 +1136,22 @@ func checkC09(c *Ctx, r *Report) {
 			}
 			n := calleeName(call)
 			if n != "("+cachePkg+".Cache).Get" && n != "("+cachePkg+".Cache).Cache" && n != "("+cachePkg+".Cache).UpdateMetadata" {
-				return
+				// a same-package wrapper that does nothing but make such a call and return its error (extendExpiry):
+				// its call site is where the cache error has to be classified
+				wrapped := ""
+				if h := helperBody(call); h != nil && call.Type().String() == "error" {
+					for _, cn := range []string{"(" + cachePkg + ".Cache).UpdateMetadata", "(" + cachePkg + ".Cache).Cache"} {
+						if site, real := cacheCallOrWrapper(f, cn); site == call && real != call {
+							wrapped = cn
+						}
+					}
+				}
+				if wrapped == "" {
+					return
+				}
+				n = wrapped
+			} else if call.Type().String() == "error" && isCacheErrorWrapper(f, call) {
+				return // decided at the wrapper's call sites
 			}
 			nCalls++
 			method := n[strings.LastIndex(n, ".")+1:]
@@ -1336,4 +1418,80 @@ func directFallbacks(f *ssa.Function) []fbSite {
 		}
 	}
 	return out
+}
+
+// cacheCallOrWrapper: the call of the cache method `name` made by f — directly (site == real), or through a
+// same-package helper that makes it on every way through and returns its error as its own only result
+// (func (f *fetcher) extendExpiry(key) error { return f.cache.UpdateMetadata(key, ...) }): site is then the call of the
+// helper in f, which stands for the cache call in orderings and as the error value; real is the cache call itself.
+func cacheCallOrWrapper(f *ssa.Function, name string) (site, real *ssa.Call) {
+	if x := findCall(f, name); x != nil {
+		return x, x
+	}
+	eachInstr(f, func(in ssa.Instruction) {
+		k, ok := in.(*ssa.Call)
+		if !ok || site != nil {
+			return
+		}
+		h := helperBody(k)
+		if h == nil || h.Signature.Results().Len() != 1 || h.Signature.Results().At(0).Type().String() != "error" {
+			return
+		}
+		x := findCall(h, name)
+		if x == nil || len(exitsFromEntryAvoiding(h, isInstr(x), nil)) > 0 {
+			return
+		}
+		tail := true
+		eachInstr(h, func(i2 ssa.Instruction) {
+			if ret, isRet := i2.(*ssa.Return); isRet && !isRecoverReturn(ret) {
+				if vs := retVals(ret); len(vs) != 1 || resolveVal(vs[0]) != ssa.Value(x) {
+					tail = false
+				}
+			}
+		})
+		if tail {
+			site, real = k, x
+		}
+	})
+	return site, real
+}
+
+// isCacheErrorWrapper: f does nothing with the error of cache call x but return it as its own only result on every
+// way through (and x is made on every way through).
+func isCacheErrorWrapper(f *ssa.Function, x *ssa.Call) bool {
+	if f.Signature.Results().Len() != 1 || f.Signature.Results().At(0).Type().String() != "error" {
+		return false
+	}
+	if len(exitsFromEntryAvoiding(f, isInstr(x), nil)) > 0 {
+		return false
+	}
+	ok, n := true, 0
+	eachInstr(f, func(in ssa.Instruction) {
+		if ret, isRet := in.(*ssa.Return); isRet && !isRecoverReturn(ret) {
+			n++
+			if vs := retVals(ret); len(vs) != 1 || resolveVal(vs[0]) != ssa.Value(x) {
+				ok = false
+			}
+		}
+	})
+	return ok && n > 0
+}
+
+// onlyReachedFrom: every caller of g is root, or a function that is itself only reached from root (a helper the
+// coalescing closure hands its work to).
+func onlyReachedFrom(li *LockInfo, g, root *ssa.Function, depth int) bool {
+	cs := li.Callers[g]
+	if len(cs) == 0 || depth > 3 {
+		return false
+	}
+	for _, site := range cs {
+		caller := site.in.Parent()
+		if caller == root {
+			continue
+		}
+		if !onlyReachedFrom(li, caller, root, depth+1) {
+			return false
+		}
+	}
+	return true
 }
